@@ -42,7 +42,9 @@ prop("C17",
                         "header_indexed_lines_reordered": 6000, "keyparser_own_text_reparsed": 1000,
                         "line_truncations_run": 1900,
                         # texts ending with the continuation character and no end-of-line (KeyParser read_line looped forever)
-                        "mutations_continuation_at_eof": 500},
+                        "mutations_continuation_at_eof": 500,
+                        # image headers with 'image scaling factor[f]' given per plane for the first (and some later) data sets
+                        "equivalent_headers_scaling_factor_per_plane": 120},
               "thorough": {"mutated_inputs": 100000, "inputs_accepted_and_consistent": 45000, "data_length_checks": 30000,
                            "registered_classes_enumerated": 114, "roundtrip_fixed_points_checked": 1100,
                            "keyword_lines_respelled_and_matched": 100000, "vectorised_lines_stored_at_index": 40000,
